@@ -1,4 +1,179 @@
-/-! Line-protocol driver for property C17 (stub until the model exists). -/
+import CprocVerif.Model.Driver
+import CprocVerif.Spec.DriverDoc
+
+/-! Line-protocol driver for property C17 (model of `driver.c`: `CprocVerif.Driver.plan`).
+
+Fields are TAB-separated.  A string token is `'` followed by its characters, every character
+outside `[A-Za-z0-9._/=+:,@-]` written `%<hex code point>;`.
+
+* `cfg <field> <tok>*`  sets `target` (one token) or one of `startfiles endfiles preprocesscmd
+                        compilecmd codegencmd assemblecmd linkcmd`   → `ok`
+* `run <tok>*`          the command line (without argv[0]) → one JSON line:
+    `{"outcome":"fatal-target"}` | `{"outcome":"usage","why":W}` |
+    `{"outcome":"run","verbose":b,"pipelines":[{"input":i,"stages":[{"stage":S,"argv":[w…],
+      "src":"file|inherit|prev","dst":"pipe|stdout|path","out":w|null}…]}…],
+      "link":[w…]|null,"unlink":[w…]}`
+  a word `w` is a token string, or `"#<i>"` for the temporary object of input `i`.
+* `doc <bits> <item>*`   the expected plan according to `Spec/DriverDoc.lean` (`docPlan`) for a
+                        command line given as ITEMS; `<bits>` = two 0/1 characters
+                        (manualEmitQbe, manualPthread);
+                        an item is `kind|<0/1 detached>|tok|tok…`; same JSON (`"why":"doc"`)
+* `render <item>*`      the argv of the items, as JSON list of token strings
+* `dev <item>*`         the known deviations present, as JSON list of names
+* anything else → `bad-op`
+-/
+
+open CprocVerif.Driver
+open CprocVerif.DriverDoc (Item Cmd Opts docPlan DocOutcome)
+
+def hexVal (c : Char) : Option Nat :=
+  if '0' ≤ c ∧ c ≤ '9' then some (c.toNat - '0'.toNat)
+  else if 'a' ≤ c ∧ c ≤ 'f' then some (c.toNat - 'a'.toNat + 10)
+  else none
+
+def decodeAux : Nat → List Char → List Char → Option (List Char)
+  | 0, _, _ => none
+  | _, [], acc => some acc.reverse
+  | fuel + 1, '%' :: cs, acc =>
+    let hex := cs.takeWhile (· != ';')
+    let rest := (cs.dropWhile (· != ';')).drop 1
+    let v := hex.foldl (fun a c => a.bind fun n => (hexVal c).map (n * 16 + ·)) (some 0)
+    match v with
+    | some n => decodeAux fuel rest (Char.ofNat n :: acc)
+    | none => none
+  | fuel + 1, c :: cs, acc => decodeAux fuel cs (c :: acc)
+
+def decodeTok (t : String) : Option Str :=
+  match t.toList with
+  | '\'' :: cs => decodeAux (cs.length + 1) cs []
+  | _ => none
+
+def hexDigits (n : Nat) : List Char := (Nat.toDigits 16 n)
+
+def safeChar (c : Char) : Bool :=
+  c.isAlphanum || c == '.' || c == '_' || c == '/' || c == '-' || c == '=' || c == '+' || c == ':' || c == ',' || c == '@'
+
+def encodeStr (s : Str) : String :=
+  String.ofList ('\'' :: s.flatMap fun c => if safeChar c then [c] else '%' :: hexDigits c.toNat ++ [';'])
+
+def wordJ : Word → String
+  | .lit s => "\"" ++ encodeStr s ++ "\""
+  | .tmp i => "\"#" ++ toString i ++ "\""
+
+def listJ (xs : List String) : String := "[" ++ ",".intercalate xs ++ "]"
+
+def invJ (i : Inv) : String :=
+  "{\"stage\":\"" ++ i.stage.name ++ "\",\"argv\":" ++ listJ (i.argv.map wordJ) ++
+  ",\"src\":\"" ++ (match i.src with | .file => "file" | .inherit => "inherit" | .prev => "prev") ++
+  "\",\"dst\":\"" ++ (match i.dst with | .pipe => "pipe" | .stdout => "stdout" | .path _ => "path") ++
+  "\",\"out\":" ++ (match i.dst with | .path w => wordJ w | _ => "null") ++ "}"
+
+def whyS : UsageWhy → String
+  | .plain => "plain" | .stdinNeedsX => "stdin-needs-x" | .unknownLang => "unknown-language"
+  | .unknownOpt => "unknown-option" | .objToStdout => "object-to-stdout" | .oMulti => "o-with-multiple-inputs"
+
+def outcomeJ : Outcome → String
+  | .fatalTarget => "{\"outcome\":\"fatal-target\"}"
+  | .refused (.usage w) => "{\"outcome\":\"usage\",\"why\":\"" ++ whyS w ++ "\"}"
+  | .run p =>
+    "{\"outcome\":\"run\",\"verbose\":" ++ (if p.verbose then "true" else "false") ++ ",\"pipelines\":" ++
+    listJ (p.pipelines.map fun pl =>
+      "{\"input\":" ++ toString pl.input ++ ",\"stages\":" ++ listJ (pl.invs.map invJ) ++ "}") ++
+    ",\"link\":" ++ (match p.link with | some a => listJ (a.map wordJ) | none => "null") ++
+    ",\"unlink\":" ++ listJ (p.unlinks.map wordJ) ++ "}"
+
+def docOutcomeJ : DocOutcome → String
+  | .fatalTarget => outcomeJ .fatalTarget
+  | .refused => "{\"outcome\":\"usage\",\"why\":\"doc\"}"
+  | .run p => outcomeJ (.run p)
+
+def decodeItem (f : String) : Option (Item × Bool) :=
+  match f.splitOn "|" with
+  | kind :: d :: toks =>
+    match toks.mapM decodeTok with
+    | none => none
+    | some vs =>
+      let det := d == "1"
+      let v := vs.headD []
+      let it : Option Item :=
+        match kind with
+        | "input" => some (.input v)
+        | "c" => some .c | "S" => some .S | "E" => some .E | "emit-qbe" => some .emitQbe
+        | "D" => some (.define v) | "U" => some (.undef v) | "I" => some (.incdir v) | "L" => some (.libdir v)
+        | "l" => some (.lib v) | "o" => some (.output v) | "x" => some (.lang v)
+        | "include" => some (.inc .include_ v) | "idirafter" => some (.inc .idirafter v)
+        | "isystem" => some (.inc .isystem v) | "iquote" => some (.inc .iquote v)
+        | "s" => some .strip | "v" => some .verbose | "static" => some .static_
+        | "nostdlib" => some .nostdlib | "nostdinc" => some .nostdinc | "pthread" => some .pthread
+        | "Wp" => some (.wtool .cpp vs) | "Wa" => some (.wtool .as vs) | "Wl" => some (.wtool .ld vs)
+        | "g" => some (.ineff (.g v)) | "O" => some (.ineff (.O v)) | "pipe" => some (.ineff .pipe)
+        | "pedantic" => some (.ineff .pedantic) | "W" => some (.ineff (.warn v))
+        | "std" => some (.std v)
+        | "M" => some (.dep .M) | "MM" => some (.dep .MM) | "MD" => some (.dep .MD) | "MMD" => some (.dep .MMD)
+        | "MT" => some (.depArg true v) | "MF" => some (.depArg false v)
+        | "P" => some (.noLineMarkers v)
+        | _ => none
+      it.map (·, det)
+  | _ => none
+
+def devName : CprocVerif.DriverDoc.Deviation → String
+  | .pthreadNotLib => "\"pthread-not-lpthread\""
+  | .emitQbeNotStdout => "\"emit-qbe-default-output-not-stdout\""
+
+def emptyCfg : Config :=
+  { target := [], startfiles := [], endfiles := [], preprocesscmd := [], compilecmd := [],
+    codegencmd := [], assemblecmd := [], linkcmd := [] }
+
+def decodeAll (ts : List String) : Option (List Str) := ts.mapM decodeTok
+
+def stepLine (cfg : Config) (line : String) : Config × String :=
+  let line := (line.toList.filter (fun c => c != '\n' && c != '\r'))
+  match (String.ofList line).splitOn "\t" with
+  | "cfg" :: field :: toks =>
+    match decodeAll toks with
+    | none => (cfg, "bad-op")
+    | some vs =>
+      match field with
+      | "target" => ({ cfg with target := vs.headD [] }, "ok")
+      | "startfiles" => ({ cfg with startfiles := vs }, "ok")
+      | "endfiles" => ({ cfg with endfiles := vs }, "ok")
+      | "preprocesscmd" => ({ cfg with preprocesscmd := vs }, "ok")
+      | "compilecmd" => ({ cfg with compilecmd := vs }, "ok")
+      | "codegencmd" => ({ cfg with codegencmd := vs }, "ok")
+      | "assemblecmd" => ({ cfg with assemblecmd := vs }, "ok")
+      | "linkcmd" => ({ cfg with linkcmd := vs }, "ok")
+      | _ => (cfg, "bad-op")
+  | "doc" :: bits :: items =>
+    match items.mapM decodeItem, bits.toList with
+    | some c, [a, b] =>
+      let o : Opts := ⟨a == '1', b == '1'⟩
+      (cfg, if CprocVerif.DriverDoc.Cmd.WF c then docOutcomeJ (docPlan o cfg c) else "not-wf")
+    | _, _ => (cfg, "bad-op")
+  | "render" :: items =>
+    match items.mapM decodeItem with
+    | some c => (cfg, listJ ((CprocVerif.DriverDoc.Cmd.argv c).map fun a => "\"" ++ encodeStr a ++ "\""))
+    | none => (cfg, "bad-op")
+  | "dev" :: items =>
+    match items.mapM decodeItem with
+    | some c => (cfg, listJ ((CprocVerif.DriverDoc.deviations c).map devName))
+    | none => (cfg, "bad-op")
+  | "run" :: toks =>
+    match decodeAll toks with
+    | none => (cfg, "bad-op")
+    | some argv => (cfg, outcomeJ (plan cfg argv))
+  | _ => (cfg, "bad-op")
+
+partial def loop (stdin stdout : IO.FS.Stream) (cfg : Config) : IO Unit := do
+  let line ← stdin.getLine
+  if line.isEmpty then
+    return ()
+  let (cfg', out) := stepLine cfg line
+  stdout.putStrLn out
+  loop stdin stdout cfg'
+
 def main (_args : List String) : IO UInt32 := do
-  IO.eprintln "drv_c17: no model yet"
-  return 2
+  let stdin ← IO.getStdin
+  let stdout ← IO.getStdout
+  loop stdin stdout emptyCfg
+  stdout.flush
+  return 0
